@@ -224,27 +224,42 @@ func runC06(e *Engine, r *Report, tier string) {
 		r.Fail("R1", "cleanup", "", "UNRESOLVED-ANCHOR: no timeout release decision found")
 	}
 	for cf := range cleanupRoots {
-		sites := e.CallSites(cf)
-		n := 0
-		for _, cs := range sites {
-			if isAuxPkg(fnPkgPath(cs.Caller)) {
-				continue
-			}
-			n++
-			ck := e.FnKey(cs.Caller) + " -> " + e.FnKey(cf)
-			var w32 ssa.Instruction
-			allCalls(cs.Caller, func(c ssa.CallInstruction) {
-				if e.callDirectOp(c, cc, "32", "set") && Dominates(c, cs.Call) {
-					w32 = c
+		// every call chain into the cleanup function must pass a call that is dominated, in its own function, by a write of
+		// the observed external height (0x32); helpers that merely relay the call are followed upwards
+		var walk func(target *ssa.Function, chain string, depth int, seen map[*ssa.Function]bool) int
+		walk = func(target *ssa.Function, chain string, depth int, seen map[*ssa.Function]bool) int {
+			n := 0
+			for _, cs := range e.CallSites(target) {
+				if isAuxPkg(fnPkgPath(cs.Caller)) {
+					continue
 				}
-			})
-			if w32 == nil {
-				r.Fail("R1", ck, e.InstrPos(cs.Call), "timeout cleanup is called without a dominating write of the observed external height (0x32) in the same function: it would run on fxcore's own schedule")
-			} else {
-				r.Ok("R1", ck, e.InstrPos(cs.Call), "dominated by set(0x32)")
+				n++
+				ck := e.FnKey(cs.Caller) + " -> " + chain
+				var w32 ssa.Instruction
+				allCalls(cs.Caller, func(c ssa.CallInstruction) {
+					if !Dominates(c, cs.Call) {
+						return
+					}
+					if e.callDirectOp(c, cc, "32", "set") {
+						w32 = c
+					}
+				})
+				if w32 != nil {
+					r.Ok("R1", ck, e.InstrPos(cs.Call), "dominated by set(0x32)")
+					continue
+				}
+				relay := rootFn(cs.Caller)
+				if depth < 4 && !seen[relay] && !cleanupRoots[relay] {
+					seen[relay] = true
+					if walk(relay, e.FnKey(relay)+" -> "+chain, depth+1, seen) > 0 {
+						continue
+					}
+				}
+				r.Fail("R1", ck, e.InstrPos(cs.Call), "timeout cleanup is called without a dominating write of the observed external height (0x32) in the calling function or in any function relaying the call: it would run on fxcore's own schedule")
 			}
+			return n
 		}
-		if n == 0 {
+		if walk(cf, e.FnKey(cf), 0, map[*ssa.Function]bool{}) == 0 {
 			r.Fail("R1", e.FnKey(cf), e.Pos(cf.Pos()), "cleanup function has no caller")
 		}
 	}
